@@ -51,7 +51,7 @@ def const_int(body, op, depth=0):
     return None
 
 
-def touching_sites(ctx_events, body):
+def touching_sites(ctx_events, body, facts=None):
     """(bb, what, site) of calls in `body` that touch database files"""
     out = []
     for e in ctx_events:
@@ -59,50 +59,80 @@ def touching_sites(ctx_events, body):
             if e.cls == "dir":
                 continue  # the directory handle itself
             out.append((e.bb, "%s(%s)" % (e.kind, e.cls), e.site))
+    have = {b for (b, _w, _s) in out}
     for b, t in body.calls():
         c = t.get("callee") or ""
         if c in COMPONENTS:
             out.append((b, c.split("::", 1)[1], t.get("ln")))
+        elif facts is not None and c in facts.bodies and facts.bodies[c].crate == "nomt" and c not in (LOCK, CREATE) and b not in have:
+            # a helper of this module that touches database files itself (e.g. an `open_db_file(name)` helper)
+            inner = set(facts.reach([c]))
+            kinds = sorted({"%s(%s)" % (e.kind, e.cls) for e in ctx_events if e.body.id in inner and e.cls not in ("dir",) and e.kind in ("open", "create", "write", "resize", "unlink", "sync")})
+            if kinds:
+                out.append((b, "%s via %s" % ("/".join(kinds[:3]), c.split("::", 1)[1]), t.get("ln")))
     return out
 
 
 def run(facts, rep, events, model):
     n = 0
+    LOCK_FIELD = fileclass.field_name(facts, "nomt::store::flock::Flock", "lock_fd")
     op = facts.body(OPEN)
     cr = facts.body(CREATE)
     lk = facts.body(LOCK)
     # ---- D1 ---------------------------------------------------------------------------------
-    # create: the lock call dominates every touching site and the Ok return
-    lock_cr = [b for b, t in cr.calls() if t.get("callee") == LOCK]
-    rep.check(len(lock_cr) == 1 and model.ok_implied(cr, lock_cr[0]), "D1", "store::create", "lock-call", "store::create must take the directory lock exactly once with its result checked (found %d call(s))" % len(lock_cr), site=cr.span, detail="Flock::lock(..)? in create")
+    # lock wrappers: functions of nomt::store that return Ok only after a checked call of Flock::lock (or of another
+    # wrapper).  `create` must be one; an `open`-side helper such as `lock_existing` is accepted the same way.
+    wrappers = {}
+    changed = True
+    while changed:
+        changed = False
+        for body in facts.bodies.values():
+            if body.crate != "nomt" or not body.id.startswith("nomt::store::") or body.id in wrappers or body.id in (LOCK, OPEN) or body.kind == "Closure":
+                continue
+            calls = [b for b, t in body.calls() if t.get("callee") == LOCK or t.get("callee") in wrappers]
+            oks = body.ok_returns()
+            rem0 = body.ok_removed()
+            if len(calls) == 1 and oks and all(body.dominates(calls[0], r, removed=rem0) for r in oks) and model.ok_implied(body, calls[0]):
+                wrappers[body.id] = calls[0]
+                changed = True
     n += 1
-    rem = cr.ok_removed()
-    for (b, what, site) in touching_sites(events, cr):
+    rep.check(CREATE in wrappers, "D1", "store::create", "lock-call", "store::create must take the directory lock exactly once, with its result checked, on every path to its Ok return", site=cr.span, detail="Flock::lock(..)? in create")
+    for wid, lb in sorted(wrappers.items()):
+        w = facts.bodies[wid]
+        ws = wid.split("::", 1)[1]
+        rem = w.ok_removed()
+        for (b, what, site) in touching_sites(events, w, facts):
+            n += 1
+            ok = b != lb and w.dominates(lb, b, removed=rem)
+            rep.check(ok, "D1", ws, "touch|%s" % what, "%s at %s in %s is not dominated by the success of Flock::lock: a second opener / creator could touch the directory's files without holding the lock" % (what, site, ws), site=site, detail="%s at %s after Flock::lock(..)?" % (what, site))
+        for b, t in w.calls():
+            c = t.get("callee") or ""
+            if b != lb and not w.is_cleanup(b) and not w.dominates(lb, b, removed=rem) and b not in set(w.err_blocks()) and (c.startswith("std::fs::") or c.startswith("nomt::")) and c not in ALLOWED_BEFORE:
+                if c in ("std::fs::OpenOptions::new", "std::fs::OpenOptions::read", "std::fs::OpenOptions::open", "std::fs::File::open"):
+                    cls = {e.cls for e in events if e.body.id == w.id and e.bb == b}
+                    if cls <= {"dir"}:
+                        continue
+                n += 1
+                rep.violation("D1", ws, "before-lock|%s" % c.split("::", 1)[1], "%s at %s can run before the directory lock is held and is not one of the allowed probes" % (c, t.get("ln")), site=t.get("ln"))
+        for r in w.ok_returns():
+            n += 1
+            rep.check(w.dominates(lb, r, removed=rem), "D1", ws, "ok-return", "%s can return Ok without holding the lock" % ws, site=w.span, detail="Ok return dominated by Flock::lock")
+        # the wrapper hands out the Flock it took
+        ret_ok = any(r.kind == "call" and (r.what == LOCK or r.what in wrappers) for r in trace(w, {"l": 0}, deep=True))
         n += 1
-        ok = bool(lock_cr) and b != lock_cr[0] and cr.dominates(lock_cr[0], b, removed=rem)
-        rep.check(ok, "D1", "store::create", "touch|%s" % what, "%s at %s in store::create is not dominated by the success of Flock::lock: a second creator could modify the directory without holding the lock" % (what, site), site=site, detail="%s at %s after Flock::lock(..)?" % (what, site))
-    for r in cr.ok_returns():
-        n += 1
-        rep.check(bool(lock_cr) and cr.dominates(lock_cr[0], r, removed=rem), "D1", "store::create", "ok-return", "store::create can return Ok without holding the lock", site=cr.span, detail="Ok return dominated by Flock::lock")
-    # create returns the flock it took
-    ret_ok = False
-    for r in trace(cr, {"l": 0}, deep=True):
-        if r.kind == "call" and r.what == LOCK:
-            ret_ok = True
-    n += 1
-    rep.check(ret_ok, "D1", "store::create", "returns-flock", "store::create no longer returns the Flock it acquired", site=cr.span, detail="Ok((db_dir_fd, flock))")
+        rep.check(ret_ok, "D1", ws, "returns-flock", "%s no longer returns the Flock it acquired" % ws, site=w.span, detail="the Ok value contains the Flock")
     # open: every touching site passes one of the two lock sites
-    sites = [b for b, t in op.calls() if t.get("callee") in (LOCK, CREATE)]
+    sites = [b for b, t in op.calls() if t.get("callee") == LOCK or t.get("callee") in wrappers]
     for b in sites:
         n += 1
         rep.check(model.ok_implied(op, b), "D1", "store::Store::open", "lock-checked|%s" % op.term(b)["callee"].split("::")[-1], "the result of %s at %s is not checked" % (op.term(b)["callee"], op.term(b).get("ln")), site=op.term(b).get("ln"), detail="`?`")
     remo = set(op.ok_removed()) | set(sites)
     reach = op.reachable([0], remo)
-    ts = touching_sites(events, op)
+    ts = touching_sites(events, op, facts)
     for (b, what, site) in ts:
         n += 1
         rep.check(b not in reach, "D1", "store::Store::open", "touch|%s" % what, "%s at %s in Store::open can be reached without passing Flock::lock (or create, which locks first): a second opener could read or modify the files of a live handle" % (what, site), site=site, detail="%s at %s only after one of the lock sites %s" % (what, site, [op.term(s).get("ln") for s in sites]))
-    rep.floor("D1 file-touching sites in Store::open", len(ts), 9)
+    rep.floor("D1 file-touching sites in Store::open", len(ts), 6)
     for r in op.ok_returns():
         n += 1
         rep.check(r not in reach, "D1", "store::Store::open", "ok-return", "Store::open can return Ok without having taken the directory lock", site=op.span, detail="Ok return only after a lock site")
@@ -140,6 +170,12 @@ def run(facts, rep, events, model):
                     others = [tb for (v, tb) in t["vals"]]
                 if ok_edge and lk.dominates(ok_edge[0], ab) and ab not in lk.reachable([o for o in others if o != ok_edge[0]]):
                     good = True
+            if not good:
+                # `try_lock_exclusive(..).map_err(..)?; Ok(Flock {..})`: the construction is dominated by the call and lies
+                # behind its `?` (the call's result is checked on every success path from the call to the construction)
+                rem0 = lk.ok_removed()
+                if ab != tl[0] and lk.dominates(tl[0], ab, removed=rem0) and ab not in rem0 and model.check_sites(lk, tl[0]) is not None and model.checked_before(lk, tl[0], ab, strict=True):
+                    good = True
             ok = ok and good
         why = "Flock{..} constructed only on the Ok arm of try_lock_exclusive"
     n += 1
@@ -149,7 +185,7 @@ def run(facts, rep, events, model):
     same = False
     for (ab, s) in aggs:
         fl = s["rv"]["fields"]
-        a = {(r.kind, r.bb) for r in roots(lk, s["rv"]["ops"][fl.index("lock_fd")]) if r.kind == "call"}
+        a = {(r.kind, r.bb) for r in roots(lk, s["rv"]["ops"][fl.index(LOCK_FIELD)]) if r.kind == "call"}
         for t in [lk.term(x) for x in tl]:
             b_ = {(r.kind, r.bb) for r in roots(lk, t["args"][0]) if r.kind == "call"}
             if a & b_:
@@ -245,7 +281,7 @@ def run(facts, rep, events, model):
         for b, t in body.calls():
             c = t.get("callee") or ""
             if c.endswith("File::try_clone") or c.endswith("::dup") or c.endswith("::dup2") or c.endswith("::into_raw_fd"):
-                if t["args"] and any(r.path and r.path[-1][0] == "lock_fd" for r in trace(body, t["args"][0])):
+                if t["args"] and any(r.path and r.path[-1][0] == LOCK_FIELD for r in trace(body, t["args"][0])):
                     dup.append(t.get("ln"))
     n += 1
     rep.check(not dup, "D5", "store::flock::Flock", "fd-not-duplicated", "the lock descriptor is duplicated at %s" % dup, detail="lock_fd is never try_clone'd / dup'ed")
